@@ -40,6 +40,8 @@ structure Var where
   val : Str
   exported : Bool
   readonly : Bool
+  /-- declared (by `export name`) but never given a value: `declare -p` prints no `=…` -/
+  novalue : Bool := false
   deriving DecidableEq, Repr
 
 /-- the part of a `Shell` value the mutators of the property write -/
@@ -148,6 +150,9 @@ inductive Mut
   | fdopen (fd : Nat)           -- `exec fd>/dev/null`, `exec fd</dev/null`
   | fdclose (fd : Nat)          -- `exec fd>&-`
   | exit (n : Nat)              -- `exit n`
+  | break_                      -- `break`
+  | continue_                   -- `continue`
+  | return_ (n : Nat)           -- `return n`
   | false_ | true_
   | echo (w : Str)              -- `echo w`
   deriving DecidableEq, Repr
@@ -176,12 +181,20 @@ def cdTarget (cwd : List Str) (t : Str) : List Str :=
 
 def shoptDefault (o : Str) : Bool := o = "extglob".toList   -- brush starts with extglob on
 
+/-- how a command list ends: normally, or with a control-flow request that the interpreter above it
+would act on (`ExecutionResult::next_control_flow`) -/
+inductive Flow
+  | normal | exit | brk | cont | ret
+  deriving DecidableEq, Repr
+
 /-- result of one command on a `Shell` value -/
 structure Step where
   sh : ShellPart
   status : Nat
   out : List Str := []
   exited : Bool := false
+  /-- the request the command ends with (`exited` says the list it is in stops) -/
+  flow : Flow := .normal
   /-- the builtin returned a Rust `Err` (not just a non-zero status): `cd` to a missing directory,
       `readonly` / `unset` of a read-only variable.  Wherever the command runs — in a list, as a pipeline
       stage on a clone, as the parent's own last stage — the error is displayed and becomes status 1. -/
@@ -193,16 +206,17 @@ def stepShell (root : List Str) (m : Mut) (s : ShellPart) : Step :=
   | .assign n v =>
     match aget n s.vars with
     | some x => if x.readonly then { sh := s, status := 1 }
-                else { sh := { s with vars := aset n { x with val := v } s.vars }, status := 0 }
+                else { sh := { s with vars := aset n { x with val := v, novalue := false } s.vars }, status := 0 }
     | none => { sh := { s with vars := aset n { val := v, exported := false, readonly := false } s.vars }, status := 0 }
   | .export n =>
     match aget n s.vars with
     | some x => { sh := { s with vars := aset n { x with exported := true } s.vars }, status := 0 }
-    | none => { sh := s, status := 0 }   -- brush: exporting an unset name records nothing
+    -- exporting a name that has no variable yet records the attribute (fix 4e5c25e)
+    | none => { sh := { s with vars := aset n { val := [], exported := true, readonly := false, novalue := true } s.vars }, status := 0 }
   | .readonly n v =>
     match aget n s.vars with
     | some x => if x.readonly then { sh := s, status := 1, err := true }
-                else { sh := { s with vars := aset n { x with val := v, readonly := true } s.vars }, status := 0 }
+                else { sh := { s with vars := aset n { x with val := v, readonly := true, novalue := false } s.vars }, status := 0 }
     | none => { sh := { s with vars := aset n { val := v, exported := false, readonly := true } s.vars }, status := 0 }
   | .unset n =>
     match aget n s.vars with
@@ -234,7 +248,12 @@ def stepShell (root : List Str) (m : Mut) (s : ShellPart) : Step :=
     | _ :: r => { sh := { s with args := r }, status := 0 }
   | .fdopen fd => { sh := { s with fds := insertSorted fd s.fds }, status := 0 }
   | .fdclose fd => { sh := { s with fds := s.fds.filter (· != fd) }, status := 0 }
-  | .exit n => { sh := s, status := n % 256, exited := true }
+  | .exit n => { sh := s, status := n % 256, exited := true, flow := .exit }
+  -- brush's `break` / `continue` do not know the loop depth: they always end the list they are in
+  | .break_ => { sh := s, status := 0, exited := true, flow := .brk }
+  | .continue_ => { sh := s, status := 0, exited := true, flow := .cont }
+  -- (inside a function; outside one `return` is an error, see `runStep`)
+  | .return_ n => { sh := s, status := n % 256, exited := true, flow := .ret }
   | .false_ => { sh := s, status := 1 }
   | .true_ => { sh := s, status := 0 }
   | .echo w => { sh := s, status := 0, out := [w] }
@@ -253,12 +272,28 @@ structure Run where
   status : Nat := 0
   out : List Str := []
   exited : Bool := false
+  /-- the request the list ended with -/
+  flow : Flow := .normal
+  /-- the shell value is running a function body (`return` is meaningful) -/
+  inFn : Bool := false
+
+/-- `set -e` in effect -/
+def errexitOn (s : ShellPart) : Bool := (aget "errexit".toList s.setopts).getD false
+
+def isReturn : Mut → Bool
+  | .return_ _ => true
+  | _ => false
 
 def runStep (root : List Str) (r : Run) (m : Mut) : Run :=
   if r.exited then r
+  else if isReturn m && !r.inFn then
+    -- `return` outside a function: an error message, status 2, the list goes on (unless `set -e`)
+    { r with status := 2, exited := errexitOn r.sh, flow := if errexitOn r.sh then .exit else .normal }
   else
     let st := stepShell root m r.sh
-    { sh := st.sh, world := stepWorld m r.world, status := st.status, out := r.out ++ st.out, exited := st.exited }
+    let ee := errexitOn st.sh && st.status != 0 && !st.exited     -- a failing command under `set -e` ends the shell
+    { r with sh := st.sh, world := stepWorld m r.world, status := st.status, out := r.out ++ st.out,
+             exited := st.exited || ee, flow := if st.exited then st.flow else if ee then .exit else .normal }
 
 def runMuts (root : List Str) (ms : List Mut) (r : Run) : Run := ms.foldl (runStep root) r
 
@@ -269,7 +304,8 @@ def varLine (n : Str) (s : ShellPart) : Str :=
   | none => "unset ".toList ++ n
   | some x =>
     let attrs : Str := (if x.readonly then ['r'] else []) ++ (if x.exported then ['x'] else [])
-    "declare -".toList ++ (if attrs.isEmpty then ['-'] else attrs) ++ [' '] ++ n ++ "=\"".toList ++ x.val ++ ['"']
+    "declare -".toList ++ (if attrs.isEmpty then ['-'] else attrs) ++ [' '] ++ n ++
+      (if x.novalue then [] else "=\"".toList ++ x.val ++ ['"'])
 
 def funcLine (f : Str) (s : ShellPart) : Str :=
   match aget f s.funcs with
@@ -322,6 +358,21 @@ def dump (s : ShellPart) (w : World) : List Str :=
 
 /-! ## subshell contexts -/
 
+/-- how the parent collects a background job -/
+inductive Sync
+  | every    -- `wait`
+  | spec     -- `wait %N`
+  | spec2    -- `wait %1 %2` (a second job `{ exit 5; } &` runs too)
+  deriving DecidableEq, Repr
+
+/-- where the parent is when it starts and collects the job -/
+inductive Frame
+  | plain      -- at top level
+  | loop       -- inside `for i in 1 2; do … done`
+  | func       -- inside a function body
+  | errexit    -- at top level with `set -e` on
+  deriving DecidableEq, Repr
+
 inductive Ctx
   | paren      -- `( ms; D ) >f`
   | cmdsub     -- `cv=$( ms; D )`
@@ -332,9 +383,14 @@ inductive Ctx
   | procsub    -- `cat <( ms; D ) >f`
   | coproc     -- `coproc { ms; D >f; }; wait`
   | pl         -- `m1 | … | { mk; } >f`: the last mutator is the last stage (runs in the parent under `lastpipe`)
+  | bgw (s : Sync) (f : Frame)   -- `{ ms; D; } >f &` collected by `wait` / `wait %N` / `wait %1 %2`, parent in a frame
   deriving DecidableEq, Repr
 
-def Ctx.all : List Ctx := [.paren, .cmdsub, .backq, .pipe, .stages, .bg, .procsub, .coproc, .pl]
+def Sync.all : List Sync := [.every, .spec, .spec2]
+def Frame.all : List Frame := [.plain, .loop, .func, .errexit]
+def Ctx.all : List Ctx :=
+  [.paren, .cmdsub, .backq, .pipe, .stages, .bg, .procsub, .coproc, .pl] ++
+  Sync.all.flatMap (fun s => Frame.all.map (fun f => Ctx.bgw s f))
 
 /-- what the parent itself does before cloning: a coprocess gets two pipe ends in the parent's
 descriptor table (`open_files_mut().add` twice: lowest free numbers) -/
@@ -393,6 +449,25 @@ def parentOwn (root : List Str) (c : Ctx) (ms : List Mut) (p : ShellPart) : Shel
   | .pl, some (init, l) => if lastpipeOn p || init.isEmpty then (stepShell root l p).sh else p
   | _, _ => prepare c p
 
+/-- what a finished background job holds (`Job::wait` returns the task's whole `ExecutionResult`) -/
+structure JobResult where
+  status : Nat
+  flow : Flow
+  deriving DecidableEq, Repr
+
+/-- **The synchronisation step.**  What the `wait` builtin hands to the interpreter of the parent
+after collecting the given jobs (`brush-builtins/src/wait.rs`): bare `wait` drops the results
+(`wait_all`), `wait %N` awaits the job and drops its result too (`job.wait().await?;`) — so the
+parent gets status 0 and no control-flow request, whatever the jobs ended with.  (bash returns the
+last job's status from `wait %N`; brush loses it.) -/
+def waitResult (_s : Sync) (_jobs : List JobResult) : JobResult := { status := 0, flow := .normal }
+
+/-- the job's body runs on a clone made while the parent is in its frame -/
+def frameShell (root : List Str) (f : Frame) (p : ShellPart) : ShellPart :=
+  match f with
+  | .errexit => (stepShell root (.seto "errexit".toList true) p).sh
+  | _ => p
+
 /-- running `ms` in context `c` under parent `p`, for a given clone table -/
 def execWith (sh fr : Comp → Bool) (root : List Str) (c : Ctx) (ms : List Mut) (p : ShellPart) (w : World) : After :=
   let p0 := prepare c p
@@ -413,6 +488,14 @@ def execWith (sh fr : Comp → Bool) (root : List Str) (c : Ctx) (ms : List Mut)
       else
         let rr := runMuts root [l] { sh := cloneWith fr r.1, world := r.2 }
         { shell := leakWith sh rr.sh r.1, world := rr.world, status := rr.status, out := rr.out }
+  | .bgw s f =>
+    let r := runMuts root ms { sh := cloneWith fr (frameShell root f p0), world := w, inFn := (f = .func) }
+    let second : List JobResult := match s with | .spec2 => [{ status := 5, flow := .exit }] | _ => []
+    let wr := waitResult s ({ status := r.status, flow := r.flow } :: second)
+    -- whatever the parent's interpreter is asked to do after `wait` it does: a request other than
+    -- `normal` would end its line / loop iteration / function
+    { shell := leakWith sh r.sh p0, world := r.world, status := wr.status, out := bodyOut r,
+      aborted := wr.flow != .normal }
   | _ =>
     let r := childRun fr root ms p0 w
     { shell := leakWith sh r.sh p0, world := r.world,
